@@ -286,7 +286,11 @@ where
                             // Ensure all window updates have been sent.
                             //
                             // This will also handle flushing `self.codec`
-                            ready!(self.inner.streams.poll_complete(cx, &mut self.codec))?;
+                            if let Err(e) =
+                                ready!(self.inner.streams.poll_complete(cx, &mut self.codec))
+                            {
+                                return Poll::Ready(Err(self.inner.as_dyn().handle_write_error(e)));
+                            }
 
                             if (self.inner.error.is_some()
                                 || self.inner.go_away.should_close_on_idle())
@@ -305,7 +309,9 @@ where
                 State::Closing(reason, initiator) => {
                     tracing::trace!("connection closing after flush");
                     // Flush/shutdown the codec
-                    ready!(self.codec.shutdown(cx))?;
+                    if let Err(e) = ready!(self.codec.shutdown(cx)) {
+                        return Poll::Ready(Err(self.inner.as_dyn().handle_write_error(e)));
+                    }
 
                     // Transition the state to error
                     self.inner.state = State::Closed(reason, initiator);
@@ -494,6 +500,20 @@ where
                 Err(e)
             }
         }
+    }
+
+    /// Flushing or shutting down the transport resulted in an I/O error.
+    ///
+    /// Such an error does not pass through `handle_poll2_result`, so all active
+    /// streams must be reset here before the error is returned.
+    fn handle_write_error(&mut self, e: io::Error) -> Error {
+        tracing::debug!(error = ?e, "Connection::poll; IO error");
+        let e = Error::from(e);
+
+        // Reset all active streams
+        self.streams.handle_error(e.clone());
+
+        e
     }
 
     fn handle_go_away(&mut self, reason: Reason, debug_data: Bytes, initiator: Initiator) {
